@@ -17,3 +17,68 @@ func (c *Conn) VerifC34SendKeyUpdate(requestUpdate bool) error {
 	c.out.setTrafficSecret(cipherSuite, cipherSuite.nextTrafficSecret(c.out.trafficSecret))
 	return nil
 }
+
+// VerifC34Finished returns the verify_data of the two Finished messages of the last handshake as
+// this (client) connection stored them: client_verify_data || server_verify_data, the value a
+// renegotiating server has to put into its renegotiation_info (RFC 5746, 3.7).
+func (c *Conn) VerifC34Finished() []byte {
+	c.handshakeMutex.Lock()
+	defer c.handshakeMutex.Unlock()
+	return append(append([]byte{}, c.clientFinished[:]...), c.serverFinished[:]...)
+}
+
+// VerifC34ServeRenegotiation makes this SERVER connection serve one renegotiation (a second, full
+// handshake inside the established connection), which neither zcrypto nor crypto/tls servers
+// implement: test scaffolding for the peer of the client under test, not code under test. It is
+// (*Conn).serverHandshake + the full-handshake branch of (*serverHandshakeState).handshake with the
+// two RFC 5746 steps a renegotiation needs: the ClientHello must carry the previous
+// client_verify_data, the ServerHello answers with previous client_verify_data || server_verify_data
+// (prev, taken from the client end by the harness: a server does not keep its own after a full handshake).
+func (c *Conn) VerifC34ServeRenegotiation(prev []byte) error {
+	c.handshakeMutex.Lock()
+	defer c.handshakeMutex.Unlock()
+	c.in.Lock()
+	defer c.in.Unlock()
+	clientHello, err := c.readClientHello()
+	if err != nil {
+		return err
+	}
+	if c.vers == VersionTLS13 || len(prev) != 24 || string(clientHello.secureRenegotiation) != string(prev[:12]) {
+		c.sendAlert(AlertHandshakeFailure)
+		return AlertHandshakeFailure
+	}
+	clientHello.secureRenegotiation = nil // verified above; processClientHello only knows initial handshakes
+	hs := serverHandshakeState{c: c, clientHello: clientHello}
+	if err := hs.processClientHello(); err != nil {
+		return err
+	}
+	hs.hello.secureRenegotiation = prev
+	c.buffering = true
+	c.didResume = false
+	if err := hs.pickCipherSuite(); err != nil {
+		return err
+	}
+	if err := hs.doFullHandshake(); err != nil {
+		return err
+	}
+	if err := hs.establishKeys(); err != nil {
+		return err
+	}
+	if err := hs.readFinished(c.clientFinished[:]); err != nil {
+		return err
+	}
+	c.clientFinishedIsFirst = true
+	c.buffering = true
+	if err := hs.sendSessionTicket(); err != nil {
+		return err
+	}
+	if err := hs.sendFinished(nil); err != nil {
+		return err
+	}
+	if _, err := c.flush(); err != nil {
+		return err
+	}
+	c.ekm = ekmFromMasterSecret(c.vers, hs.suite, hs.masterSecret, hs.clientHello.random, hs.hello.random)
+	c.handshakes++
+	return nil
+}
